@@ -263,6 +263,11 @@ Section WithH.
       | Ok (LLeaf index sd) =>
           match get_node s index with
           | Ok (NLeaf old_leaf) =>
+              (* fix 9e5ac516: a freed block keeps its stale bytes; only the index the key cache holds
+                 for the leaf found there is accepted *)
+              if negb (match amap_get N.eqb (l_key old_leaf) (k2i s) with Some ci => ci =? index | None => false end)
+              then (Err E_UnknownKey, s)
+              else
               let ih := match sd with
                         | SLeft => internal_hash H hash (l_hash old_leaf)
                         | SRight => internal_hash H (l_hash old_leaf) hash
@@ -381,7 +386,22 @@ Section WithH.
     | _ => ret tt
     end.
 
+  (* fix a9e08b84: the whole batch is validated before anything is mutated *)
+  Fixpoint batch_validate (items : list item) (seen_k : list N) (seen_h : list bytes) (s : mblob) : res unit :=
+    match items with
+    | [] => Ok tt
+    | (k, v, h) :: r =>
+        if amap_mem N.eqb k (k2i s) || nmem k seen_k then Err E_KeyAlreadyPresent
+        else if amap_mem bytes_eqb h (h2i s) || existsb (bytes_eqb h) seen_h then Err E_HashAlreadyPresent
+        else batch_validate r (k :: seen_k) (h :: seen_h) s
+    end.
+
   Definition batch_insert (items : list item) : M unit := fun s =>
+    match batch_validate items [] [] s with
+    | Err e => (Err e, s)
+    | Panic => (Panic, s)
+    | OutOfFuel => (OutOfFuel, s)
+    | Ok _ =>
     if leaf_count s <=? 1 then
       match pop_last items with
       | None => (Ok tt, s)
@@ -403,7 +423,8 @@ Section WithH.
           | (OutOfFuel, s1) => (OutOfFuel, s1)
           end
       end
-    else batch_tail items s.
+    else batch_tail items s
+    end.
 
   (* ---------- delete / upsert ---------- *)
   Definition sibling_index (n : inode) (i : N) : res N :=
@@ -458,6 +479,10 @@ Section WithH.
   Definition upsert (key value : N) (new_hash : bytes) : M unit := fun s =>
     match get_leaf_by_key s key with
     | Ok (leaf_index, lf, blk) =>
+        (* fix c5be66b8: the new hash must not be cached for another leaf *)
+        if (match amap_get bytes_eqb new_hash (h2i s) with Some e => negb (e =? leaf_index) | None => false end)
+        then (Err E_HashAlreadyPresent, s)
+        else
         (remove_leaf lf ;;;
          let lf' := mkLeaf new_hash (l_parent lf) (l_key lf) value in
          insert_entry_to_blob leaf_index (mkBlock (b_dirty blk) (NLeaf lf')) ;;;
